@@ -499,7 +499,7 @@ def run_op(w, case, classes, call, regs, op):
             return [98], viol
         c, inst = r
         names = [f['name'] for f in merged_fields(case, c)]
-        nm = fname(op[2]) if op[2] < 90 else 'zz%d' % op[2]
+        nm = fname(op[2]) if op[2] < 90 else ('zz%d' % op[2] if op[2] == 90 else '_p%d' % op[2])
         before = snapshot(w, inst, names)
         if kind == 'setattr':
             v = w.val(op[3])
